@@ -42,7 +42,7 @@ def run(g, cfg, pid, tier, seed, work, problems):
         for l in lines:
             p = l.split("\t")
             if len(p) >= 3:
-                m.setdefault((p[0], p[1], p[2] if p[1] == "dec" else ""), []).append(l)
+                m.setdefault((p[0], p[1], p[2] if p[1] in ("dec", "decio") else ""), []).append(l)
         return m
     ref = digests.get("opt,cfg-std")
     compared = 0
@@ -67,7 +67,7 @@ def run(g, cfg, pid, tier, seed, work, problems):
             f.write("%s\t%s\n" % (c, d.replace("\n", " ")))
     n = counts.get("opt", 0)
     stats = dict(evaluations=n, distinct_nontrivial=max(0, n - 1), duplicates_dropped=0, oracle_checks=compared,
-                 rule="deterministic corpus (per-type PRNG seeded by type name): for every registry type a few seeded values (encode bytes) and for each its encoding plus three mutations (decode outcome, consumed bytes, re-encoding, decode_all verdict); one digest line per case; the digests of five feature configurations are compared line by line with the default configuration; the cases of the no_std build are also checked against the model. non-trivial = every case (all are distinct (type, input) pairs)",
+                 rule="deterministic corpus (per-type PRNG seeded by type name): for every registry type a few seeded values (encode bytes) and for each its encoding plus three mutations (decode outcome, consumed bytes, re-encoding, decode_all verdict); one digest line per case, plus one per case for the std-only paths (encode through an io::Write sink that short-writes and reports Interrupted, decode through IoReader over a reader that short-reads and reports Interrupted; without std the same lines come from the core paths); the digests of five feature configurations are compared line by line with the default configuration; the cases of the no_std build are also checked against the model. non-trivial = every case (all are distinct (type, input) pairs)",
                  distribution={("cases[%s]" % NAMES[c]): counts.get(c, 0) for c in CONFIGS},
                  samples=[l[:200] for l in (ref or [])[:6]])
     json.dump(stats, open(os.path.join(work, "stats.json"), "w"))
